@@ -298,6 +298,21 @@ def check_property(prop, tier):
         und_units = [u for u in units if any(("does not compile" in x or x.startswith("extract")) for x in results[u].infra)
                      or any(ob.get("kind") == "fn" and ob.get("status") == "undecided" and _selected(spec, u, ob.get("qual")) for ob in results[u].obligations.values())]
         if und_units:
+            if "transfer" in und_units or "coldpath" in und_units:
+                # cross-heap transfer on the real code: build / extract / inject / compare for a fixed list of values
+                try:
+                    from . import cesearch
+
+                    tr = cesearch.transfer_grid()
+                    for n, d in enumerate(tr["disagreements"][:5]):
+                        rp = os.path.join(REPLAYS, "%s_standin_transfer_%d.json" % (prop, n))
+                        with open(rp, "w") as fh:
+                            json.dump({"property": prop, "obligation": "bounded_standin::transfer", "class": "functional",
+                                       "verifier_message": "the deductive check is undecided on this tree (%s); a value extracted from one heap and injected into another does not read back the same on the real code" % ", ".join(und_units),
+                                       "failing_expression": None, "counterexample": {"found": True, "input": d}}, fh, indent=1)
+                        lines.append("VIOLATION property=%s replay=%s" % (prop, rp))
+                except Exception as e:
+                    undecided.append("bounded transfer stand-in could not run: %r" % (e,))
             try:
                 from . import progsearch
 
